@@ -11,6 +11,7 @@ the library, so the reader is checked against the abstract world as well (engine
 from __future__ import annotations
 
 import os
+import pathlib
 import shutil
 import tempfile
 import traceback
@@ -211,7 +212,8 @@ def run_case(run, inp: Input, seq: Sequence[str], tmp: str, engine: str, case: d
     try:
         raw0 = inp.raw()
         canon0 = inp.canon()
-        b = BSP(inp.path)
+        # the file name is given as str and as os.PathLike alternately
+        b = BSP(pathlib.Path(inp.path) if hash_path(inp.path) else inp.path)
         b._parsed_lumps = rec = RecordingDict(b._parsed_lumps)
         stage = 'touch'
         for v in seq:
@@ -243,7 +245,7 @@ def run_case(run, inp: Input, seq: Sequence[str], tmp: str, engine: str, case: d
             viol('resave', 'saving the same object a second time wrote a different file',
                  {'len1': len(gbytes), 'len2': len(gbytes2)})
         stage = 'reread'
-        g = BSP(gpath)
+        g = BSP(pathlib.Path(gpath) if not hash_path(inp.path) else gpath)
         rawg = snapshot(g)
         for kind, w in compare_raw(raw0, rawg, owned, owned_game):
             viol(kind, f'{kind} difference after save: {w}', dict(w, owned=sorted(owned)))
@@ -318,6 +320,10 @@ WORLD_VARIANTS = [
     dict(zero_vertex=False, faceids='empty'),
     dict(lzma=True, scale=3, vis='small'),
 ]
+
+
+def hash_path(p: str) -> int:
+    return sum(map(ord, os.path.basename(p))) & 1
 
 
 def make_world(seed: int, wi: int, layout: str, variant: int) -> dict:
